@@ -2137,6 +2137,25 @@ let com_sums f lab l =
     (combine (zseq Z0 (Z.to_nat (size0 f.shape))) (all_positions f.shape))
     (Z0, (map (fun _ -> Z0) f.shape))
 
+(** val lbb_update : z list list -> z -> z list -> z list list **)
+
+let lbb_update rows l p =
+  if Z.ltb l Z0 then rows else updZ rows l (upd_ext (nthZ [] rows l) p)
+
+(** val lbb_scan : arr -> z -> z list list **)
+
+let lbb_scan f n0 =
+  fold_left (fun rows p -> lbb_update rows (aget f p) p)
+    (all_positions f.shape)
+    (repeat (ext_init f.shape) (Z.to_nat (Z.add n0 (Zpos XH))))
+
+(** val bbox_labeled : arr -> z -> z list list **)
+
+let bbox_labeled f n0 =
+  map (fun e ->
+    if Z.eqb (nthZ Z0 e (Zpos XH)) Z0 then map (fun _ -> Z0) e else e)
+    (lbb_scan f n0)
+
 (** val qf_join : z list -> z -> z -> z list **)
 
 let qf_join cls i j =
